@@ -277,6 +277,12 @@ func init() {
 				}
 				for i := 0; i < nh; i++ {
 					cs = append(cs, fw.Case{ID: fmt.Sprintf("history/rand/%d", i), Kind: "history", P: map[string]any{"i": i}})
+					if i < 2 {
+						cs = append(cs, fw.Case{ID: fmt.Sprintf("history/compiled/r1cs/%d", i), Kind: "histcompiled", P: map[string]any{"i": i, "sys": "r1cs"}})
+						if !ctx.Quick {
+							cs = append(cs, fw.Case{ID: fmt.Sprintf("history/compiled/scs/%d", i), Kind: "histcompiled", P: map[string]any{"i": i, "sys": "scs"}})
+						}
+					}
 				}
 				nfs := 40
 				if !ctx.Quick {
@@ -308,6 +314,103 @@ func init() {
 				var o fw.Outcome
 				r := ctx.Rand(c.ID)
 				switch c.Kind {
+				case "histcompiled":
+					// one history structure (which operations, how many values each) compiled with a
+					// real builder; the observed values are circuit variables, several value sets
+					// are solved and the squeezed challenges compared with the reference
+					structure := append([]chOp{}, genHistory(r, 40)...)
+					structure = append(structure, chOp{Op: "getn", N: 3}, chOp{Op: "elems"}, chOp{Op: "getext"}, chOp{Op: "elems", Vals: make([]uint64, 8)}, chOp{Op: "gethash"}, chOp{Op: "get"})
+					nIn := 0
+					for _, op := range structure {
+						nIn += len(op.Vals) + len(op.Hs)
+					}
+					nOut := len(runHistoryRef(structure))
+					fn := func(api frontend.API, in []frontend.Variable) []frontend.Variable {
+						c := challenger.NewChip(api)
+						pos := 0
+						var outs []frontend.Variable
+						for _, op := range structure {
+							vs := make([]gl.Variable, len(op.Vals))
+							for i := range vs {
+								vs[i] = gl.NewVariable(in[pos])
+								pos++
+							}
+							hs := make([]frontend.Variable, len(op.Hs))
+							for i := range hs {
+								hs[i] = in[pos]
+								pos++
+							}
+							switch op.Op {
+							case "elem":
+								c.ObserveElement(vs[0])
+							case "elems":
+								c.ObserveElements(vs)
+							case "hash":
+								c.ObserveHash(poseidon.GoldilocksHashOut{vs[0], vs[1], vs[2], vs[3]})
+							case "bnhash":
+								c.ObserveBN254Hash(hs[0])
+							case "cap":
+								cap := make([]poseidon.BN254HashOut, len(hs))
+								for i := range cap {
+									cap[i] = hs[i]
+								}
+								c.ObserveCap(cap)
+							case "ext":
+								c.ObserveExtensionElement(gl.QuadraticExtensionVariable{vs[0], vs[1]})
+							case "exts":
+								var es []gl.QuadraticExtensionVariable
+								for i := 0; i+1 < len(vs); i += 2 {
+									es = append(es, gl.QuadraticExtensionVariable{vs[i], vs[i+1]})
+								}
+								c.ObserveExtensionElements(es)
+							case "get":
+								outs = append(outs, c.GetChallenge().Limb)
+							case "getn":
+								for _, v := range c.GetNChallenges(uint64(op.N)) {
+									outs = append(outs, v.Limb)
+								}
+							case "getext":
+								e := c.GetExtensionChallenge()
+								outs = append(outs, e[0].Limb, e[1].Limb)
+							case "gethash":
+								for _, v := range c.GetHash() {
+									outs = append(outs, v.Limb)
+								}
+							}
+						}
+						return outs
+					}
+					var ios []compiledIO
+					nv := 3
+					if !ctx.Quick {
+						nv = 12
+					}
+					for k := 0; k < nv; k++ {
+						h := make([]chOp, len(structure))
+						var in []*big.Int
+						for i, op := range structure {
+							h[i] = chOp{Op: op.Op, N: op.N}
+							for range op.Vals {
+								v := randGL(r)
+								h[i].Vals = append(h[i].Vals, v)
+								in = append(in, bu(v))
+							}
+							for range op.Hs {
+								v := randBig(r, bigR)
+								h[i].Hs = append(h[i].Hs, v)
+								in = append(in, v)
+							}
+						}
+						var out []*big.Int
+						for _, v := range runHistoryRef(h) {
+							out = append(out, bu(v))
+						}
+						ios = append(ios, compiledIO{In: in, Out: out})
+					}
+					if v, bad := compiledAgree(&o, c.Str("sys"), "challenger_history", fn, nIn, nOut, ios); bad {
+						return v
+					}
+					o.Sample = map[string]any{"system": c.Str("sys"), "ops": len(structure), "inputs": nIn, "challenges": nOut}
 				case "forced", "history":
 					var h []chOp
 					if c.Kind == "forced" {
@@ -617,6 +720,12 @@ func init() {
 							continue // tree construction cost
 						}
 						cs = append(cs, fw.Case{ID: fmt.Sprintf("h%d/w%d", h, w), Kind: "tree", P: map[string]any{"h": h, "w": w, "corr": corr}})
+						if (h == 8 && w == 5) || (h == 5 && w == 2) || (h == 6 && w == 10) {
+							cs = append(cs, fw.Case{ID: fmt.Sprintf("compiled/r1cs/h%d/w%d", h, w), Kind: "compiled", P: map[string]any{"h": h, "w": w, "sys": "r1cs"}})
+							if !ctx.Quick {
+								cs = append(cs, fw.Case{ID: fmt.Sprintf("compiled/scs/h%d/w%d", h, w), Kind: "compiled", P: map[string]any{"h": h, "w": w, "sys": "scs"}})
+							}
+						}
 						if !ctx.Quick && h <= 9 {
 							cs = append(cs, fw.Case{ID: fmt.Sprintf("h%d/w%d/rep1", h, w), Kind: "tree", P: map[string]any{"h": h, "w": w, "corr": corr}})
 						}
@@ -637,6 +746,94 @@ func init() {
 					}
 				}
 				tree := ref.BuildMerkle(leaves, 4)
+				if c.Kind == "compiled" {
+					// the Merkle gadget on a really compiled system: honest openings solvable,
+					// openings with one changed value not
+					lowBits := h - 4
+					fn := func(api frontend.API, in []frontend.Variable) []frontend.Variable {
+						cd := types.CommonCircuitData{}
+						fc := fri.NewChip(api, &cd, &cd.FriParams)
+						lv := make([]gl.Variable, w)
+						for i := range lv {
+							lv[i] = gl.NewVariable(in[i])
+						}
+						pos := w
+						lb := append([]frontend.Variable(nil), in[pos:pos+lowBits]...)
+						pos += lowBits
+						cb := append([]frontend.Variable(nil), in[pos:pos+4]...)
+						pos += 4
+						mc := make(variables.FriMerkleCap, 16)
+						for i := range mc {
+							mc[i] = in[pos+i]
+						}
+						pos += 16
+						mp := variables.FriMerkleProof{}
+						for i := 0; i < lowBits; i++ {
+							mp.Siblings = append(mp.Siblings, in[pos+i])
+						}
+						for _, b := range lb {
+							api.AssertIsBoolean(b)
+						}
+						for _, b := range cb {
+							api.AssertIsBoolean(b)
+						}
+						fc.VerifMerkle(lv, lb, cb, mc, &mp)
+						return nil
+					}
+					mk := func(idx int, leaf []ref.F, sib, cap []fr.Element, flipBit int) []*big.Int {
+						var in []*big.Int
+						for _, x := range leaf {
+							in = append(in, bu(x))
+						}
+						for i := 0; i < h; i++ {
+							b := uint64(idx>>uint(i)) & 1
+							if i == flipBit {
+								b ^= 1
+							}
+							in = append(in, bu(b))
+						}
+						for _, x := range cap {
+							in = append(in, frBig(x))
+						}
+						for _, x := range sib {
+							in = append(in, frBig(x))
+						}
+						return in
+					}
+					var ios []compiledIO
+					nop := 4
+					if !ctx.Quick {
+						nop = 16
+					}
+					for k := 0; k < nop; k++ {
+						idx := r.Intn(n)
+						if k == 0 {
+							idx = n - 1
+						}
+						sib := tree.Prove(idx)
+						ios = append(ios, compiledIO{In: mk(idx, leaves[idx], sib, tree.Cap, -1)})
+						bad := append([]ref.F(nil), leaves[idx]...)
+						bad[r.Intn(w)] = ref.Add(bad[r.Intn(w)], 1)
+						if d, _ := ref.MerkleFold(bad, uint64(idx)&(1<<uint(lowBits)-1), sib); !d.Equal(&tree.Cap[idx>>uint(lowBits)]) {
+							ios = append(ios, compiledIO{In: mk(idx, bad, sib, tree.Cap, -1), Reject: true})
+						}
+						ios = append(ios, compiledIO{In: mk(idx, leaves[idx], sib, tree.Cap, r.Intn(h)), Reject: true})
+						if len(sib) > 0 {
+							s2 := append([]fr.Element(nil), sib...)
+							var one fr.Element
+							one.SetOne()
+							s2[r.Intn(len(s2))].Add(&s2[r.Intn(len(s2))], &one)
+							if d, _ := ref.MerkleFold(leaves[idx], uint64(idx)&(1<<uint(lowBits)-1), s2); !d.Equal(&tree.Cap[idx>>uint(lowBits)]) {
+								ios = append(ios, compiledIO{In: mk(idx, leaves[idx], s2, tree.Cap, -1), Reject: true})
+							}
+						}
+					}
+					if v, bad := compiledAgree(&o, c.Str("sys"), "merkle", fn, w+lowBits+4+16+lowBits, 0, ios); bad {
+						return v
+					}
+					o.Sample = map[string]any{"system": c.Str("sys"), "height": h, "width": w}
+					return o
+				}
 				var idxs []int
 				if n <= 64 {
 					for i := 0; i < n; i++ {
